@@ -955,6 +955,7 @@ class ContainsCriterion(Criterion):
             A copy of the criterion with the tables replaced.
         """
         self.term = self.term.replace_table(current_table, new_table)
+        self.container = self.container.replace_table(current_table, new_table)
 
     def get_sql(self, ctx: SqlContext) -> str:
         container_ctx = ctx.copy(subquery=True)
@@ -1004,6 +1005,8 @@ class BetweenCriterion(RangeCriterion):
             A copy of the criterion with the tables replaced.
         """
         self.term = self.term.replace_table(current_table, new_table)
+        self.start = self.start.replace_table(current_table, new_table)
+        self.end = self.end.replace_table(current_table, new_table)
 
     def get_sql(self, ctx: SqlContext) -> str:
         # FIXME escape
